@@ -38,8 +38,12 @@ def gen_case(rng):
     if not any(o[0] == "get" for o in ops):
         ops.append(["get", 5])
     antenna = rng.random() < 0.35
-    return dict(sr=sr, dyadic=dyadic, fch1=rng.choice([0.0, 0.0, sr * 2]), ascending=rng.random() < 0.5, t0=t0, seed=rng.randint(0, 10 ** 6),
-                noise=noise, chirps=chirps, probe=rng.choice(["complex", "complex", "real", "none"]), ops=ops, antenna=antenna, pols=rng.choice([1, 2]))
+    extra = {}
+    pols = rng.choice([1, 2])
+    if antenna and pols == 2 and rng.random() < 0.5:
+        extra["probe_y"] = rng.choice(["complex", "real", "none"])        # the polarisations need not carry the same kind of custom source
+    return dict(extra, sr=sr, dyadic=dyadic, fch1=rng.choice([0.0, 0.0, sr * 2]), ascending=rng.random() < 0.5, t0=t0, seed=rng.randint(0, 10 ** 6),
+                noise=noise, chirps=chirps, probe=rng.choice(["complex", "complex", "real", "none"]), ops=ops, antenna=antenna, pols=pols)
 
 
 def g_ops(c):
